@@ -531,7 +531,8 @@ def run(ctx):
     ctx.guard(r4, ctx, prog)
     ctx.guard(r5, ctx, prog)
     ctx.guard(r6, ctx, prog)
-    ctx.guard(r7, ctx, prog)
+    # C12.R7 (the operator in comparisons with close_index) is retired: it condemned `res_index >= close_index` tested before the counter moves, which is the same
+    # boundary (variant r16_close_test_before_count); the boundary is decided by the replay C12.R16, which catches what R7 caught (seed C12/b, r16_close_one_early)
     ctx.guard(r8, ctx, prog)
     ctx.guard(r10, ctx, prog)
     ctx.guard(r12, ctx, prog)
@@ -542,6 +543,8 @@ def run(ctx):
     ctx.guard(progress.run_files, ctx, prog, 'C12.R13', ['http/server/request_parser.cpp', 'http/server/server_imp.cpp', 'http/server/context.cpp', 'http/common.cpp', 'http/url.cpp', 'http/request.cpp', 'http/respond.cpp', 'network/tcp_server.cpp'], 'HTTP receive path', floor=1)
     from rules import C12_replay
     ctx.guard(C12_replay.r14, ctx, prog)
+    from rules import C12_respond
+    ctx.guard(C12_respond.r16, ctx, prog)
     from tbxlint import divzero
     ctx.guard(divzero.rule, ctx, prog, 'C12.R15', 'A9 no division or remainder by a value that may be zero in the HTTP server: every integer /, % whose divisor is not a non-zero constant is preceded on every path by a test that the divisor is not zero (or the divisor is positive by construction): a zero that the peer can cause (a window width, a count, a length) is a SIGFPE that ends the process', ['/http/'], 30)
     return prog
